@@ -485,6 +485,25 @@ class Interp:
         vals = [self.ev(x) for x in e.values]
         ts = [self.truth(v) for v in vals]
         is_and = isinstance(e.op, ast.And)
+        # value semantics where the configuration decides it: `a or b` IS its first true operand (`opts or "QJ"`, `x or default`),
+        # `a and b` its first false one (or the last)
+        pick = None
+        for v, t in zip(vals, ts):
+            if t is None:
+                pick = None
+                break
+            pick = v
+            if (t is True and not is_and) or (t is False and is_and):
+                break
+        if pick is not None and pick.tag("kind") != "bool" and not (pick.known and isinstance(pick.const, bool)):
+            r = pick.copy()
+            for v in vals:
+                if v is not pick:
+                    f = v.flat()
+                    r.ctrl = r.ctrl | f.data | f.ctrl
+                    r.shp = r.shp | f.shp
+            r.tags["parts"] = (is_and, [x for x in e.values], vals)
+            return r
         r = Val(term=mk_term("and" if is_and else "or", *[v.term for v in vals]))
         for v in vals:
             f = v.flat()
@@ -576,6 +595,9 @@ class Interp:
                 out.const = (l.const == r.const) == pos
             elif _dimv(l) is not None and _dimv(r) is not None and (_dimv(l) == _dimv(r) or (_concrete(_dimv(l)) and _concrete(_dimv(r)))):
                 out.const = (_dimv(l) == _dimv(r)) == pos
+            elif any(isinstance(_dimv(a_), tuple) and b_.known and b_.const == 0 and not isinstance(b_.const, bool) for a_, b_ in ((l, r), (r, l))):
+                # the extent of a named axis compared with 0: the configurations assume non-empty axes (stated assumption)
+                out.const = not pos
             elif (l.known and r.tag("kind") in ("ndarray",)) or (r.known and l.tag("kind") == "ndarray"):
                 pass
             else:
@@ -583,7 +605,7 @@ class Interp:
                 for a, b in ((l, r), (r, l)):
                     if a.known and isinstance(a.const, str) and b.tag("notstr"):
                         out.const = not pos
-            self.qty_compare(e, l, r)
+            self.qty_compare(e, l, r, exact=True)
             self.elementwise_shape(e, out, l, r)
             if l.known and not r.known:
                 out.tags["cmp"] = (type(op).__name__, r, l)          # 0 == x  ≡  x == 0
@@ -621,6 +643,10 @@ class Interp:
                 cont = [i.const for i in r.items]
             elif isinstance(r.tag("kw"), dict) and r.tag("kw_rest") is None and not r.tag("opaque_rest"):
                 cont = list(r.tag("kw").keys())         # membership in a dict with literal keys
+            if cont is None and l.known and l.const == 0 and not isinstance(l.const, bool) and r.items is not None and r.items \
+                    and all(isinstance(_dimv(i), tuple) for i in r.items):
+                out.const = not pos         # `0 in x.shape[...]`: named axes are non-empty (stated assumption)
+                return out
             if cont is not None:
                 out.tags["in_set"] = (l, tuple(cont) if not isinstance(cont, str) else cont, pos)
                 if l.known:
@@ -633,10 +659,15 @@ class Interp:
             return out
         return out
 
-    def qty_compare(self, e, l, r):
+    def qty_compare(self, e, l, r, exact=False):
         if l.unit is None or r.unit is None:
             return
         ok, _ = ueq(l.unit, r.unit)
+        if not ok and exact and any(x_.known and _num(x_.const) and not isinstance(x_.const, bool) for x_ in (l, r)):
+            # `x == 1` / `x != 1`: an EXACT test for one particular number (the identity of a product, a sentinel) selects between
+            # computations; it is not a threshold on a quantity.  What the branch does is judged by the other rules.
+            self.emit("identity_test", e, operands=(l, r))
+            return
         if not ok:
             self.type_error(e, "QTY", f"comparison of [{ustr(l.unit)}] with [{ustr(r.unit)}]",
                             sub=("literal" if (l.unit == ONE and (l.tag("isnum") or l.known)) or (r.unit == ONE and (r.tag("isnum") or r.known)) else "mismatch"))
